@@ -3,6 +3,8 @@ package props
 import (
 	"bufio"
 	"fmt"
+	"golang.org/x/net/http2"
+	"golang.org/x/net/http2/h2c"
 	"net"
 	"net/http"
 	"os"
@@ -468,6 +470,12 @@ func C05(r *core.Run) {
 		r.Broken("C05: an agent made no pending-list call within 60 s of its start")
 		r.Finish(1)
 	}
+	h2Done := make(chan struct{})
+	go func() {
+		defer close(h2Done)
+		c05H2(r, agentBin, md)
+	}()
+	defer func() { <-h2Done }()
 	rng := r.Rand("c05")
 	n := r.Pick(48, 640)
 	sizes := []int{1, 2, 100, 4095, 4096, 4097, 32 << 10, 1 << 20}
@@ -812,6 +820,7 @@ func C05(r *core.Run) {
 	}
 	r.Set("chunks_observed_in_lock_step", len(lat))
 	r.Set("body_bytes_streamed", total)
+	<-h2Done
 	judgeProcs(r, true, agent, agent2, agent3)
 	agent.Kill()
 	agent2.Kill()
@@ -836,4 +845,117 @@ func trimInts(v []int) []int {
 		return append(append([]int{}, v[:24]...), -len(v))
 	}
 	return v
+}
+
+// c05H2: an agent started with --force-http2 in front of an h2c backend.  Two
+// responses stream in lock-step over the one shared HTTP/2 connection, one of
+// them for longer than 12 s (16 chunks, 800 ms apart), the other one briefly
+// right at the start: every chunk must be observed at the proxy within the bound.
+func c05H2(r *core.Run, agentBin string, md *fakes.Metadata) {
+	px, err := fakes.NewProxy()
+	if err != nil {
+		r.Broken(err.Error())
+		return
+	}
+	defer px.Close()
+	px.ListWait = 100 * time.Millisecond
+	var mu sync.Mutex
+	inners := map[string]*c05Inner{}
+	getInner := func(id string) *c05Inner {
+		mu.Lock()
+		defer mu.Unlock()
+		if inners[id] == nil {
+			inners[id] = newC05Inner()
+		}
+		return inners[id]
+	}
+	px.OnResponse = func(id string, w http.ResponseWriter, req *http.Request) bool {
+		in := getInner(id)
+		px.AcceptUpload(id, w, req, in.feed)
+		in.finish()
+		return true
+	}
+	type outcome struct {
+		missedAt int
+		observed int64
+		done     bool
+	}
+	outs := map[string]*outcome{}
+	const T = 5 * time.Second
+	handler := http.HandlerFunc(func(w http.ResponseWriter, req *http.Request) {
+		id := strings.TrimPrefix(req.URL.Path, "/h2/")
+		n, pause := 16, 800*time.Millisecond
+		if strings.HasSuffix(id, "short") {
+			n, pause = 4, 10*time.Millisecond
+		}
+		in := getInner(id)
+		out := &outcome{missedAt: -1}
+		w.Header().Set("Content-Type", "text/event-stream")
+		w.WriteHeader(200)
+		var sent int64
+		for i := 0; i < n; i++ {
+			piece := tokBytes(id, fmt.Sprint(i), 200+i)
+			if _, err := w.Write(piece); err != nil {
+				out.missedAt = i
+				break
+			}
+			w.(http.Flusher).Flush()
+			sent += int64(len(piece))
+			ok, got := in.waitBody(sent, T)
+			out.observed = got
+			if !ok {
+				out.missedAt = i
+				break
+			}
+			time.Sleep(pause)
+		}
+		out.done = true
+		mu.Lock()
+		outs[id] = out
+		mu.Unlock()
+	})
+	l, err := net.Listen("tcp", "127.0.0.1:0")
+	if err != nil {
+		r.Broken(err.Error())
+		return
+	}
+	srv := &http.Server{Handler: h2c.NewHandler(handler, &http2.Server{})}
+	go srv.Serve(l)
+	defer srv.Close()
+	agent, err := startAgent(r, agentBin, "agent-h2", md, px.URL(), l.Addr().String(), "b5h2", "--force-http2=true")
+	if err != nil {
+		r.Broken(err.Error())
+		return
+	}
+	defer agent.Kill()
+	for d := time.Now().Add(60 * time.Second); time.Now().Before(d) && px.Lists() == 0 && agent.Alive(); {
+		time.Sleep(10 * time.Millisecond)
+	}
+	ids := []string{fmt.Sprintf("s%dh2long", r.Seed), fmt.Sprintf("s%dh2short", r.Seed)}
+	for _, id := range ids {
+		var w rawhttp.Builder
+		w.Line("GET /h2/"+id+" HTTP/1.1").Field("Host", "c05.example").Field("Accept-Encoding", "identity").End()
+		px.Enqueue(id, w.Bytes(), "")
+	}
+	for d := time.Now().Add(16*800*time.Millisecond + T + 20*time.Second); time.Now().Before(d); time.Sleep(20 * time.Millisecond) {
+		mu.Lock()
+		n := len(outs)
+		mu.Unlock()
+		if n == len(ids) {
+			break
+		}
+	}
+	for _, id := range ids {
+		r.Case("h2c-backend|" + strings.TrimPrefix(id, fmt.Sprintf("s%dh2", r.Seed)))
+		mu.Lock()
+		out := outs[id]
+		mu.Unlock()
+		switch {
+		case out == nil:
+			r.Inconclusive("h2c lane: the request " + id + " never finished at the backend")
+		case out.missedAt >= 0:
+			r.Violate("C05:h2:chunk-not-relayed", fmt.Sprintf("h2c backend behind --force-http2: chunk %d of the %s stream was flushed by the backend but not observed at the proxy within %v (%d body bytes observed; the stream had been running for about %.1f s)", out.missedAt, strings.TrimPrefix(id, fmt.Sprintf("s%dh2", r.Seed)), T, out.observed, float64(out.missedAt)*0.8), nil, nil)
+		}
+	}
+	judgeProcs(r, true, agent)
 }
